@@ -25,7 +25,7 @@ REQUIRED_THEOREMS = ['CfVerif.C04.' + t for t in (
     'one_outstanding_fifo', 'reply_attribution_partial', 'reply_attribution_counterexample',
     'reply_attribution_duplicates_counterexample', 'open_lock_discipline', 'unmatched_reply_ignored',
     'stale_reply_ignored_when_idle', 'reply_for_other_request_ignored', 'update_callbacks_once_per_answer',
-    'stale_same_id_counterexample')]
+    'stale_same_id_counterexample', 'gen_retry_guard', 'retransmit_only_outstanding')]
 TRUSTED = ['harness/corr/c04.py extractor + correspondence + spec twin; harness/sim/crazyflie_device.py (session stepping, link) and harness/vsched',
            'environment model: the firmware parameter server of DESIGN Appendix D (Spec/C04 Dev = harness/sim CrazyflieDevice port 2, cross-checked on every transmitted request)',
            "CPython: struct pack/unpack as modelled in Base/Struct; int(str) on ASCII input; float(str) (passed to the model as an oracle, only reached for "
@@ -40,7 +40,9 @@ ASSUMPTIONS = ['the 60 s wall-clock wait of set_value/get_value before the first
                'duplicated / late / forged packets: covered by the open-system theorems (EvX.inject: lock discipline, FIFO, ignored when idle or when '
                'another index is outstanding, one fan-out per accepted answer); the closed-system theorems (Answers, attribution, round trip) assume '
                'the device answers each request once; a stale answer with the SAME index as the outstanding request is accepted (finding D5c)',
-               'retransmission itself (Crazyflie.send_packet retry timers) is C10; here a retransmitted request only matters through the second answer',
+               'the retransmission path of Crazyflie.send_packet is modelled as far as it decides what param packets reach the wire (SysR: patterns, '
+               'split timers, _check_for_answers); cancellation of timers on close / link error / reconnect is C10; threading.Timer: cancel() has no '
+               'effect once the timer thread woke up (C10 FakeTimer semantics)',
                'the port callback left behind by _ExtendedTypeFetcher after connection (C03) is unregistered by the harness; TOC download itself is C03',
                'reply_attribution is PARTIAL: side condition DistinctAlong (finding D5b)']
 RULE = ('cases = request lines of scenarios, each on a fresh simulated Crazyflie (2-10 parameters over all 10 numeric types, V2 and legacy protocol, RO / '
@@ -330,6 +332,41 @@ def extract(ctx):
     X.expect(len(tries) == 1 and [ast.unparse(s) for s in tries[0].body] == ['cb.callback(pk)'] and len(tries[0].handlers) == 1
              and ast.unparse(tries[0].handlers[0].type) == 'Exception', 'run: port callback is no longer called inside try/except Exception')
     g.raw('def dispatchCatches : Bool := true')
+    # -- the retransmission path of Crazyflie.send_packet (what a fired retry timer may put on the wire): the path analysis of
+    #    the C10 package (imported, not copied) gives the conditions under which a packet is transmitted / a retry timer is armed
+    from harness.corr import c10 as C10
+    cls = X.find(cft, 'Crazyflie')
+    sp = X.find(cls, 'send_packet')
+    body = [st for st in sp.body if not (isinstance(st, ast.Expr) and isinstance(st.value, ast.Constant))]
+    X.expect(body and isinstance(body[0], ast.If) and len(body[0].body) == 1 and isinstance(body[0].body[0], ast.Raise),
+             'send_packet: expected the size check first')
+    rest = C10._critical_section(cls, sp, body[1:], X.GenFile(PID, []))
+    an = C10._Send(sp)
+    an.fn_rest = rest
+    an.happens(rest, 'collect')
+    tx = an.happens(rest, 'tx')
+    tvars = sorted({t[0] for t in an.timers} | {v for _, v, _ in an.registers})
+    X.expect(len(tvars) == 1, 'send_packet: retry timers are bound to several variables: %s' % tvars)
+    arm_t, arm_r, arm_s = (an.happens(rest, k + tvars[0]) for k in ('timer:', 'register:', 'start:'))
+    X.expect(arm_t == arm_r == arm_s, 'send_packet: creating, registering and starting the retry timer no longer coincide')
+    g.raw('set_option linter.unusedVariables false')
+    g.raw('/-- send_packet (lo: link open, he: a reply is expected, rs: resend, nr: link.needs_resending, pe: the pattern is registered, '
+          'ti: the registered timer IS the retry timer that asks): a new retry timer is created, registered for the pattern and started -/')
+    g.raw('def sendArms (lo he rs nr pe ti : Bool) : Bool := ' + arm_t)
+    g.raw('/-- ... the packet is handed to the link -/')
+    g.raw('def sendTransmits (lo he rs nr pe ti : Bool) : Bool := ' + tx)
+    for kind in ('fresh', 'resend'):
+        keys = sorted({str(k) for k, _, kd in an.registers if kd == kind})
+        X.expect(len(keys) == 1, 'send_packet: expected one registration of the retry timer on the %s path' % kind)
+        g.string('retry' + kind.capitalize() + 'Pattern', keys[0])
+    chk = X.find(cls, '_check_for_answers')
+    g.strings('checkCompares', X.compares(chk))
+    fin = [n for n in chk.body if isinstance(n, ast.If)][-1]
+    g.strings('checkFinalBody', [ast.unparse(b) for b in fin.body])
+    g.strings('updaterExpectedReply', [ast.unparse(k.value) for n in ast.walk(run) if isinstance(n, ast.Call) and ast.unparse(n.func) == 'self.cf.send_packet'
+                                       for k in n.keywords if k.arg == 'expected_reply'])
+    retry = X.find(cls, '_no_answer_do_retry')
+    g.strings('retryCalls', _calls(retry, 'self.send_packet'))
     return {'C04.lean': g.render()}
 
 
@@ -625,6 +662,44 @@ class Real:
         else:
             self.link.ready.extend(held)
 
+    # -- split retry timers (machinery of the C10 package: FakeTimer with states N/A/E/D/C, imported not copied)
+    def split_timers(self):
+        """from now on the retry timers of Crazyflie.send_packet are C10's FakeTimer: `texpire` = the timer thread wakes up (it can
+        no longer be cancelled), `trun` = its callback runs.  Undo with restore_timers()."""
+        import cflib.crazyflie as cfm
+        from harness.corr import c10 as C10
+        self._cfm, self._old_timer = cfm, cfm.Timer
+        self.ftimers, self.fclock = [], [0]
+        C10.FakeTimer.registry, C10.FakeTimer.clock = self.ftimers, self.fclock
+        cfm.Timer = C10.FakeTimer
+
+    def restore_timers(self):
+        if getattr(self, '_old_timer', None) is not None:
+            self._cfm.Timer = self._old_timer
+            self._old_timer = None
+
+    def texpire(self, i):
+        if i >= len(self.ftimers) or self.ftimers[i].state != 'A':
+            return False
+        self.fclock[0] = max(self.fclock[0], self.ftimers[i].deadline)
+        self.ftimers[i].state = 'E'
+        return True
+
+    def trun(self, i):
+        """-> None (not enabled) or the PARAM packets the callback retransmitted [(chan, data)]"""
+        if i >= len(self.ftimers) or self.ftimers[i].state != 'E':
+            return None
+        t = self.ftimers[i]
+        t.state = 'D'
+        n0 = len(self.link.sent)
+        t.function(*t.args, **t.kwargs)
+        out = [(c, d) for (p, c, d) in self.link.sent[n0:] if p == 2]
+        self.nsent = len(self.link.sent)
+        return out
+
+    def tstate(self):
+        return ''.join(t.state for t in self.ftimers) or '-'
+
     def timer_step(self):
         """needs_resending links: the earliest retry timer of Crazyflie.send_packet fires (the request is retransmitted and
         the device answers it again).  Returns the retransmitted PARAM packets [(chan, data)], or None when no timer is pending."""
@@ -737,7 +812,7 @@ def gen_value(rng, ct):
 class Scenario:
     """one scenario = one device + one real session + the request lines for the Lean driver and the expected replies"""
 
-    def __init__(self, ctx, routing, snap, v2=True, n=None, all_types=False, needs_resending=False):
+    def __init__(self, ctx, routing, snap, v2=True, n=None, all_types=False, needs_resending=False, split=False):
         from harness.sim import crazyflie_device as S
         self.S = S
         self.ctx = ctx
@@ -754,6 +829,10 @@ class Scenario:
         r = self.real
         self.emit('reset %d %d %d %s' % (routing, 1 if snap else 0, 1 if r.param._useV2 else 0, r.toc_line()), ['ok', '-'])
         self.emit('devreset %d %s' % (1 if self.dev.v2 else 0, self.dev_line()), ['ok', '-'])
+        self.split = split and needs_resending
+        if self.split:
+            r.split_timers()
+            self.emit('retry-reset 1', ['ok', '-'])
         # the library has already queued one read per parameter (request_update_of_all_params at `connected`)
         for g in r.param.toc.toc:
             for nm in r.param.toc.toc[g]:
@@ -780,6 +859,7 @@ class Scenario:
             self.emit('upd', ['disabled'])
             return False
         self.emit('upd', ['ok'] + toks)
+        self.tstate()
         for t in toks:
             if t.startswith('tx:'):
                 _, chan, data = t.split(':')
@@ -793,6 +873,27 @@ class Scenario:
     @property
     def dev_last_replies(self):
         return self._last_replies
+
+    def tstate(self):
+        if self.split:
+            self.emit('tstate', ['ok', self.real.tstate()])
+
+    def texpire(self, i):
+        ok = self.real.texpire(i)
+        self.emit('texpire %d' % i, ['ok', '-'] if ok else ['disabled'])
+        return ok
+
+    def trun(self, i):
+        re = self.real.trun(i)
+        if re is None:
+            self.emit('trun %d' % i, ['disabled'])
+            return None
+        toks = []
+        for (chan, data) in re:
+            toks += ['retx:%d:%s' % (chan, hexs(data)), 'dev=' + ','.join('%d:%s' % (c, hexs(d)) for (_, c, d) in self._last_replies)]
+        self.emit('trun %d' % i, ['ok'] + (toks or ['-']))
+        self.tstate()
+        return re
 
     def timer(self):
         """a retry timer fires: the retransmitted request reaches the device (twin kept in step); the host model is not involved"""
@@ -817,6 +918,7 @@ class Scenario:
         if port != 2:
             return True
         self.emit('rx %d %s' % (chan, hexs(data)), ['ok'] + toks)
+        self.tstate()
         return True
 
 
@@ -867,6 +969,14 @@ def run_ops(sc, nops, weights=None):
         if rng.random() < 0.1:
             if sc.timer():
                 ctx.count('step:retransmit')
+        if sc.split and r.ftimers and rng.random() < 0.25:
+            live = [k for k, t in enumerate(r.ftimers) if t.state in 'AE']
+            i = rng.choice(live) if live and rng.random() < 0.8 else rng.randrange(len(r.ftimers))
+            if rng.random() < 0.5:
+                ctx.count('step:texpire' if sc.texpire(i) else 'step:texpire-disabled')
+            else:
+                re = sc.trun(i)
+                ctx.count('step:trun-disabled' if re is None else ('step:trun-retransmits' if re else 'step:trun-dropped'))
         if x < 0.22:
             if not sc.upd():
                 ctx.count('step:upd-disabled')
@@ -1057,6 +1167,47 @@ def dup_family(sc):
     ctx.count('dup:family-' + first)
 
 
+def retry_family(sc):
+    """split retry timers: (a) the answer arrives between timer expiry and timer callback and the next request - same
+    (channel, index), another channel, or another index - is already transmitted when the callback runs; (b) the callback runs
+    before the answer: a legitimate retransmission, both copies answered"""
+    rng, r, ctx, dev = sc.rng, sc.real, sc.ctx, sc.dev
+    w = [i for i, p in enumerate(dev.param_toc) if not p.readonly]
+    if not sc.split or len(w) < 2 or not getattr(r.param, 'is_updated', False) or not r.proto4():
+        return
+    ix, iy = rng.sample(w, 2)
+    nx, ny = sc.names[ix], sc.names[iy]
+    px, py = dev.param_toc[ix], dev.param_toc[iy]
+    for nxt in ('same', 'read', 'other'):
+        sc.set(nx, rand_value(rng, px.ctype))
+        if not sc.upd():
+            return
+        t = len(r.ftimers) - 1
+        held = r.hold()
+        sc.texpire(t)
+        r.unhold(held)
+        sc.deliver()                                   # the answer: accepted; the expired timer cannot be cancelled
+        if nxt == 'same':
+            sc.set(nx, rand_value(rng, px.ctype))
+        elif nxt == 'read':
+            sc.emit('requpd %s 1' % r.cn(nx), ['ok'] + r.request_update(nx))
+        else:
+            sc.set(ny, rand_value(rng, py.ctype))
+        sc.upd()
+        sc.trun(t)                                     # the stale callback
+        drain(sc)
+        ctx.count('retry:stale-callback-next-' + nxt)
+    sc.set(nx, rand_value(rng, px.ctype))              # (b)
+    if sc.upd():
+        t = len(r.ftimers) - 1
+        held = r.hold()
+        sc.texpire(t)
+        sc.trun(t)
+        r.unhold(held, front=True)
+        drain(sc)
+        ctx.count('retry:legitimate-retransmission')
+
+
 def drain(sc, limit=400):
     for _ in range(limit):
         a = sc.upd() if sc.real.s._worker_ready(sc.real.upd) else False
@@ -1077,16 +1228,23 @@ def correspond(ctx):
         v2 = ctx.rng.random() < 0.85
         nr = (k % 3 == 1)
         ctx.count('link:needs_resending=%d' % (1 if nr else 0))
-        sc = Scenario(ctx, routing, snap, v2=v2, all_types=(k % 5 == 0), n=10 if k % 5 == 0 else None, needs_resending=nr)
-        if ctx.rng.random() < 0.7:
-            drain(sc)                       # fetch all values: fully connected
-        if k % 2 == 0:
-            dup_family(sc)
-        run_ops(sc, 150 if thorough else 80)
-        if sc.real.proto4():
+        split = nr and (k % 6 == 1)
+        sc = Scenario(ctx, routing, snap, v2=v2, all_types=(k % 5 == 0), n=10 if k % 5 == 0 else None, needs_resending=nr, split=split)
+        try:
+            if ctx.rng.random() < 0.7 or split:
+                drain(sc)                       # fetch all values: fully connected
+            if split:
+                ctx.count('link:split-retry-timers')
+                retry_family(sc)
+            if k % 2 == 0:
+                dup_family(sc)
+            run_ops(sc, 150 if thorough else 80)
+            if sc.real.proto4():
+                drain(sc)
+                misc_burst(sc, 1 + k % 5)
             drain(sc)
-            misc_burst(sc, 1 + k % 5)
-        drain(sc)
+        finally:
+            sc.real.restore_timers()
         sc.emit('state', None)
         scenarios.append(sc)
     flines, fwant = float_cases(ctx, 20000 if thorough else 2500)
@@ -1230,7 +1388,79 @@ def search(ctx):
     """the property itself (Python twin of Spec/C04 + the statement) evaluated on the real code's observable behaviour"""
     _search_sync(ctx)
     _search_duplicates(ctx)
+    _search_retry(ctx)
     search_threads(ctx)
+
+
+def _search_retry(ctx):
+    """What reaches the WIRE on a needs_resending link, with the retry timers of Crazyflie.send_packet split into expiry and
+    callback.  Spec: requests go on the wire in issue order; a request is retransmitted only while it is the outstanding one -
+    never after its answer was accepted, whatever has been issued since; at the end device, cache and callbacks agree."""
+    from harness.sim import crazyflie_device as S
+    rng = ctx.rng
+    routing, _snap = source_variant()
+    trials = 30 if ctx.tier == 'thorough' else 9
+    for t in range(trials):
+        nxt = ('same', 'same', 'other')[t % 3]
+        first = ('set', 'read')[(t // 3) % 2] if nxt == 'same' and t % 2 else 'set'
+        cts = [CTYPES[(t + j) % len(CTYPES)] for j in range(2)]
+        ps = [S.ParamVar('g', 'p%d' % k, ct, value=rand_value(rng, ct)) for k, ct in enumerate(cts)]
+        dev = S.CrazyflieDevice(protocol_version=5, param_toc=ps)
+        r = Real(dev, {}, routing, needs_resending=True)
+        try:
+            calls = []
+            r.param.add_update_callback(group=None, name=None, cb=lambda n, v: calls.append((n, v)))
+            _pump(r)
+            if not _ready(ctx, r, 'retry'):
+                return
+            r.split_timers()
+            base = len(dev.requests)
+            issued = []
+
+            def issue(kind, i, v=None):
+                if kind == 'set':
+                    if not _call(r, r.param.set_value, 'g.p%d' % i, v)[0]:
+                        issued.append((2, bytes([i, 0]) + struct.pack(FW_FMT[cts[i]], v)))
+                else:
+                    if not _call(r, r.param.request_param_update, 'g.p%d' % i)[0]:
+                        issued.append((1, bytes([i, 0])))
+            v1, v2 = rand_value(rng, cts[0]), rand_value(rng, cts[0])
+            issue(first, 0, v1)
+            r.upd_step()
+            tm = len(r.ftimers) - 1
+            held = r.hold()
+            if tm < 0 or not r.texpire(tm):
+                ctx.witness('retry-timer-missing', 'no retry timer was armed for a param request on a needs_resending link', {'types': cts})
+                continue
+            r.unhold(held)
+            r.deliver()                                    # the answer arrives after the expiry, before the callback
+            if nxt == 'same':
+                issue(first, 0, v2)                        # same (channel, index): registers its own timer under the same pattern
+            else:
+                issue('set', 1, rand_value(rng, cts[1]))
+            r.upd_step()
+            r.trun(tm)                                     # now the stale callback runs
+            _pump(r)
+            # remaining timers fire only while their request is unanswered: none is, everything was pumped
+            wire = [(c, d) for (p, c, d) in dev.requests[base:] if p == 2]
+            ctx.count('search:retry-' + nxt)
+            ok_cache = True
+            for i in range(2):
+                try:
+                    c = r.param.get_value('g.p%d' % i)
+                    ok_cache &= _bits(cts[i], float(c) if cts[i] in ('float', 'double') else int(c)) == _bits(cts[i], dev.param_toc[i].value)
+                except Exception:
+                    ok_cache = False
+            if wire != issued or not ok_cache:
+                ctx.witness('retransmit-after-answer',
+                            'a request was put on the wire again after its answer had been accepted (retry callback ran late, next request: %s)' % nxt,
+                            {'types': cts, 'first_request': first, 'next_request': nxt,
+                             'history': ['request 1 transmitted', 'its retry timer expires', 'answer 1 delivered (accepted)',
+                                         'request 2 transmitted', 'callback of the expired timer runs', 'pump']},
+                            issued=[(c, d.hex()) for c, d in issued], wire=[(c, d.hex()) for c, d in wire], cache_equals_device=ok_cache,
+                            device=[repr(p.value) for p in dev.param_toc], callbacks=calls[-4:])
+        finally:
+            r.restore_timers()
 
 
 def _search_duplicates(ctx):
